@@ -25,6 +25,9 @@ type input struct {
 	Depth int    `json:"depth"`
 	Width int    `json:"width"`
 	Raw   bool   `json:"raw,omitempty"` // the type is handed over un-pointerified
+	// "embelem": an anonymous-flatten chain over a type whose first field is a
+	// slice/array of structs with an embedded pointer to a struct, every field filled
+	Focus string `json:"focus,omitempty"`
 }
 
 func opts(in input, chain []xf.M) rty.XOpts {
@@ -42,6 +45,9 @@ func opts(in input, chain []xf.M) rty.XOpts {
 		o.Unexported = true
 		o.TUv = true
 	}
+	if in.Focus == "embelem" {
+		o.ForceElemEmbed = true
+	}
 	return o
 }
 
@@ -52,6 +58,18 @@ func run(raw json.RawMessage) driver.Result {
 	}
 	r := coqfmt.NewRng(in.State)
 	chain, cname := xf.DrawChain(r)
+	if in.Focus == "embelem" {
+		switch r.Intn(4) {
+		case 0:
+			chain, cname = xf.YAMLChain(true), "yaml"
+		case 1:
+			chain, cname = []xf.M{xf.Anon()}, "anon"
+		case 2:
+			chain, cname = []xf.M{xf.Alias("dials"), xf.Anon(), xf.SetSlice()}, "alias-anon-setslice"
+		default:
+			chain, cname = []xf.M{xf.SubstName(), xf.SetSlice(), xf.Anon()}, "mix1"
+		}
+	}
 	g := rty.NewXGen(r, opts(in, chain))
 	t0 := g.Struct(0)
 	t := t0
@@ -75,6 +93,10 @@ func run(raw json.RawMessage) driver.Result {
 		}
 	}
 	num := 1 + r.Intn(4) // fill probability 1/4 .. 4/4
+	if in.Focus != "" {
+		num = 4
+		tags = append(tags, "focus-"+in.Focus)
+	}
 	f := xf.Fill(r, t, tto.T, chain, num, 4)
 	res := xf.ReverseSafe(tf, f.V)
 	tags = append(tags, "reverse-"+res.Class(), fmt.Sprintf("filled-leaves-%d", min(f.NFilled, 8)))
@@ -172,6 +194,11 @@ func gen(r *coqfmt.Rng, n int, tier string) []json.RawMessage {
 			in.K = "named"
 		} else if r.Chance(1, 16) {
 			in.Raw = true
+		} else if r.Chance(1, 12) {
+			in.Focus = "embelem"
+			if in.Depth < 1 {
+				in.Depth = 1
+			}
 		}
 		b, _ := json.Marshal(in)
 		out = append(out, b)
@@ -196,7 +223,7 @@ func main() {
 	}
 	driver.Main(driver.Engine{
 		Prop: prop, CoqImport: "Dials.Check.C10Check", CoqRun: "run_cases",
-		Rule: "random struct types with globally unique field names (nesting, *struct, embedded value/pointer structs, []struct, [2]struct, map[string]struct, maps, sets map[T]struct{}, durations, TextUnmarshaler structs, named scalars/slices/maps, user pointers, dials/dialsdesc tags, alias tags of the chain's tag families on random fields incl. struct-typed ones), pointerified (1/16 raw, then with unexported fields); random chain = a shipped chain (env, flag, pflag, json/cue, yaml with/without anonymous-flatten, toml, ez's decoder wrap with each field-name encoder), three mixed chains covering every mangler, or a sub-chain of one of them; every translated top-level field filled with a per-case probability in {1/4..1}, nested pointers nil with probability 1/4, 1/6 of the filled fields SET TO THE ZERO VALUE of their type (non-nil pointer to false/0/\"\", empty non-nil slice or map; string-cast texts false / 0 / empty / 0s), string-cast fields with texts drawn for their original type (1/12 malformed); element structs of slices/arrays half of the time with one more level (struct, *struct, embedded (pointer) struct fields), one element in four the zero element and one written scalar in four of the others zero; one case in three reverse-translates a SECOND filling with the same Transformer and re-reads the first result afterwards (direct oracle: unchanged; both compared with the model); parse.String outcomes for the texts handed to the model as a table; non-trivial: chain contains a 1->n mangler (alias, flatten, anonymous-flatten) and non-nil leaves were written at >= 2 different depths; distinct = distinct PRNG case states",
+		Rule: "random struct types with globally unique field names (nesting, *struct, embedded value/pointer structs, []struct, [2]struct, map[string]struct, maps, sets map[T]struct{}, durations, TextUnmarshaler structs, named scalars/slices/maps, user pointers, dials/dialsdesc tags, alias tags of the chain's tag families on random fields incl. struct-typed ones), pointerified (1/16 raw, then with unexported fields); random chain = a shipped chain (env, flag, pflag, json/cue, yaml with/without anonymous-flatten, toml, ez's decoder wrap with each field-name encoder), three mixed chains covering every mangler, or a sub-chain of one of them; every translated top-level field filled with a per-case probability in {1/4..1}, nested pointers nil with probability 1/4, 1/6 of the filled fields SET TO THE ZERO VALUE of their type (non-nil pointer to false/0/\"\", empty non-nil slice or map; string-cast texts false / 0 / empty / 0s), string-cast fields with texts drawn for their original type (1/12 malformed); element structs of slices/arrays half of the time with one more level (struct, *struct, embedded (pointer) struct fields), one element in four the zero element and one written scalar in four of the others zero; one case in twelve focused: an anonymous-flatten chain (yaml with FlattenAnonymous, the mangler alone, alias+anon+set-slice, mix1) over a type whose first field is a slice/array of structs embedding a pointer to a struct, every field filled; one case in three reverse-translates a SECOND filling with the same Transformer and re-reads the first result afterwards (direct oracle: unchanged; both compared with the model); parse.String outcomes for the texts handed to the model as a table; non-trivial: chain contains a 1->n mangler (alias, flatten, anonymous-flatten) and non-nil leaves were written at >= 2 different depths; distinct = distinct PRNG case states",
 		Gen:  gen, Run: run,
 	})
 }
